@@ -139,6 +139,7 @@ def install(E):
         return wrap(r)
     reg('PickStr', lambda e, a: pick(e, a, lambda s: e.sterm(s), lambda t: StrV(t=t)))
     reg('PickU64', lambda e, a: pick(e, a, lambda x: e.bv(x, 64), lambda t: t))
+    reg('PickBytes', lambda e, a: pick(e, a, lambda b: e.sterm(e.tobytes(b)), lambda t: BytesV(StrV(t=t))))
     def pickpriv(e, a):
         from .crypto import privval, mkpriv
         return pick(e, a, lambda p: privval(e, p), lambda t: mkpriv(t))
